@@ -648,7 +648,18 @@ pub fn run_hist<'p>(
                     filled = true;
                     "ok".into()
                 }
-                Err(_) => "panic".into(),
+                Err(msg) => {
+                    // `fill_tags` after a prediction by a predictor built with tag prediction must not panic on a well-formed model
+                    // (the documented panic — a predictor without tag prediction — is answered `nofill` above)
+                    if oracle == "c06" {
+                        if let Some(k) = cur_pred {
+                            if models.get(k).map_or(false, |m| m.well_formed() && m.tags_well_formed()) {
+                                fails.push(("C06".into(), format!("fill_tags() panicked on text {:?} after a prediction by a tag-predicting predictor: {}", s.as_raw_text(), msg.chars().take(200).collect::<String>())));
+                            }
+                        }
+                    }
+                    "panic".into()
+                }
             },
             ["spec", k] => {
                 let Ok(k) = k.parse::<usize>() else { return "bad-op".into() };
